@@ -2,7 +2,9 @@ package main
 
 import (
 	"fmt"
+	"go/token"
 	"go/types"
+	"strings"
 
 	"golang.org/x/tools/go/ssa"
 )
@@ -121,4 +123,230 @@ func stateRefsSent(r *Report, rule string, sel func(f *ssa.Function) bool, isSta
 		})
 	}
 	r.Sentinel(rule+".replies", n, min)
+}
+
+// ---------- a slice handed to another goroutine is not written again ----------
+
+func sliceRootOf(v ssa.Value, d int) ssa.Value {
+	return sliceRootRec(v, map[ssa.Value]bool{})
+}
+
+// sliceRootRec: the allocation a slice value's backing array comes from, through re-slicing, appends and the phis of
+// loops (values being resolved further up the recursion are loop-carried and say nothing new).
+func sliceRootRec(v ssa.Value, busy map[ssa.Value]bool) ssa.Value {
+	if v == nil || busy[v] {
+		return nil
+	}
+	switch x := v.(type) {
+	case *ssa.Slice:
+		busy[v] = true
+		defer delete(busy, v)
+		if r := sliceRootRec(x.X, busy); r != nil {
+			return r
+		}
+		return nil
+	case *ssa.ChangeType:
+		return sliceRootRec(x.X, busy)
+	case *ssa.Call:
+		if bi, ok := x.Call.Value.(*ssa.Builtin); ok && bi.Name() == "append" && len(x.Call.Args) > 0 {
+			busy[v] = true
+			defer delete(busy, v)
+			return sliceRootRec(x.Call.Args[0], busy)
+		}
+	case *ssa.Phi:
+		busy[v] = true
+		defer delete(busy, v)
+		var root ssa.Value
+		for _, e := range x.Edges {
+			r := sliceRootRec(e, busy)
+			if r == nil {
+				continue // loop-carried
+			}
+			if root != nil && r != root {
+				return v
+			}
+			root = r
+		}
+		if root != nil {
+			return root
+		}
+		return nil
+	}
+	return v
+}
+
+// flowsToSend: the value ends up — as it stands, re-sliced, or as a field of a struct value — in something that is
+// sent on a channel, in this function or in a function of the module it is passed to.
+func flowsToSend(v ssa.Value, d int, seen map[ssa.Value]bool) bool {
+	if d > 5 || v == nil || seen[v] {
+		return false
+	}
+	seen[v] = true
+	refs := v.Referrers()
+	if refs == nil {
+		return false
+	}
+	for _, ref := range *refs {
+		switch x := ref.(type) {
+		case *ssa.Send:
+			if x.X == v {
+				return true
+			}
+		case *ssa.Select:
+			for _, st := range x.States {
+				if st.Send == v {
+					return true
+				}
+			}
+		case *ssa.MakeInterface:
+			if flowsToSend(x, d, seen) {
+				return true
+			}
+		case *ssa.Slice:
+			if x.X == v && flowsToSend(x, d, seen) {
+				return true
+			}
+		case *ssa.ChangeType:
+			if flowsToSend(x, d, seen) {
+				return true
+			}
+		case *ssa.Store:
+			if x.Val != v {
+				continue
+			}
+			// a field of a struct being built: the struct's loads
+			if fa, ok := x.Addr.(*ssa.FieldAddr); ok {
+				if al, isAl := fa.X.(*ssa.Alloc); isAl {
+					for _, r2 := range *al.Referrers() {
+						if ld, isLd := r2.(*ssa.UnOp); isLd && ld.Op == token.MUL && flowsToSend(ld, d, seen) {
+							return true
+						}
+						if mi, isMI := r2.(*ssa.MakeInterface); isMI && flowsToSend(mi, d, seen) {
+							return true
+						}
+					}
+				}
+			}
+		case *ssa.Call:
+			if x.Call.IsInvoke() {
+				continue
+			}
+			h := x.Call.StaticCallee()
+			if h == nil || h.Blocks == nil || !strings.HasPrefix(funcPkgPath(h), modPath) || len(x.Call.Args) != len(h.Params) {
+				continue
+			}
+			for k, a := range x.Call.Args {
+				if a == v && flowsToSend(h.Params[k], d+1, seen) {
+					return true
+				}
+			}
+		}
+	}
+	return false
+}
+
+// sentSlicesNotReused: in the loops' packages, a slice that is handed to another goroutine inside an event is not
+// written again by the sender: no append to, store into or copy into a slice with the same backing array is
+// reachable from the hand-over unless the array is made anew first. (indices = indices[:0] … request(t, p, indices)
+// in a loop over peers hands every peer the same array and overwrites it while the earlier peers have not read it.)
+func sentSlicesNotReused(r *Report, rule string, pkgs map[string]bool, min int) {
+	p := r.P
+	n := 0
+	isSlice := func(t types.Type) bool { _, ok := t.Underlying().(*types.Slice); return ok }
+	for _, f := range p.SrcFuncs() {
+		if !pkgs[relPkg(f)] {
+			continue
+		}
+		type ho struct {
+			in   ssa.Instruction
+			root ssa.Value
+		}
+		var hos []ho
+		allInstrs(f, func(in ssa.Instruction) {
+			c, ok := in.(*ssa.Call)
+			if !ok || c.Call.IsInvoke() {
+				return
+			}
+			h := c.Call.StaticCallee()
+			if h == nil || h.Blocks == nil || !strings.HasPrefix(funcPkgPath(h), modPath) || len(c.Call.Args) != len(h.Params) {
+				return
+			}
+			for k, a := range c.Call.Args {
+				if !isSlice(a.Type()) {
+					continue
+				}
+				if _, isConst := a.(*ssa.Const); isConst {
+					continue
+				}
+				if flowsToSend(h.Params[k], 0, map[ssa.Value]bool{}) {
+					hos = append(hos, ho{in, sliceRootOf(a, 0)})
+				}
+			}
+		})
+		// struct literals with a slice field sent from this function directly
+		allInstrs(f, func(in ssa.Instruction) {
+			st, ok := in.(*ssa.Store)
+			if !ok || !isSlice(st.Val.Type()) {
+				return
+			}
+			if _, isConst := st.Val.(*ssa.Const); isConst {
+				return
+			}
+			fa, ok := st.Addr.(*ssa.FieldAddr)
+			if !ok {
+				return
+			}
+			if al, isAl := fa.X.(*ssa.Alloc); !isAl || al.Comment != "complit" {
+				return
+			}
+			if flowsToSend(st.Val, 0, map[ssa.Value]bool{}) {
+				hos = append(hos, ho{in, sliceRootOf(st.Val, 0)})
+			}
+		})
+		if len(hos) == 0 {
+			continue
+		}
+		r.Fn(f)
+		writesRoot := func(in ssa.Instruction, root ssa.Value) bool {
+			switch x := in.(type) {
+			case *ssa.Call:
+				if bi, ok := x.Call.Value.(*ssa.Builtin); ok {
+					switch bi.Name() {
+					case "append":
+						// appending within the capacity of a re-sliced array writes into it
+						if _, isSl := x.Call.Args[0].(*ssa.Slice); isSl || true {
+							return sliceRootOf(x.Call.Args[0], 0) == root
+						}
+					case "copy":
+						return sliceRootOf(x.Call.Args[0], 0) == root
+					}
+				}
+			case *ssa.Store:
+				if ia, ok := x.Addr.(*ssa.IndexAddr); ok {
+					return sliceRootOf(ia.X, 0) == root
+				}
+			}
+			return false
+		}
+		for _, h := range hos {
+			if _, isMk := h.root.(*ssa.MakeSlice); !isMk {
+				if _, isAl := h.root.(*ssa.Alloc); !isAl {
+					continue // not an array this function made: judged where it was made
+				}
+			}
+			n++
+			var w ssa.Instruction
+			allInstrs(f, func(in ssa.Instruction) {
+				if w == nil && writesRoot(in, h.root) && reachesAvoidingDef(h.in, in, h.root) {
+					w = in
+				}
+			})
+			msg := ""
+			if w != nil {
+				msg = fmt.Sprintf("the slice handed to another goroutine here is written again at %s without its array having been made anew: the receiver reads it later, from its own goroutine, and finds what was written for somebody else (a peer enqueues another peer's blocks; its own are never counted off)", p.Fset.Position(w.Pos()))
+			}
+			r.Check(w == nil, rule, fmt.Sprintf("%s/handed-over-slice-not-reused", fname(f)), h.in.Pos(), "nothing writes into the array after it was handed over", msg)
+		}
+	}
+	r.Sentinel(rule+".handed-over", n, min)
 }
